@@ -214,7 +214,7 @@ theorem setextOpen_sim (src : Bytes) : OpenSim src .setext := by
             rfl rfl rfl rfl (by show (-1 : Int) < 0; decide))) (fun n m sA4 sB4 hq => ?_)
           obtain ⟨_, hm', hn0, h4⟩ := hq
           subst hm'
-          refine S2.bind (appendLine_s2 h4 n hseg) (fun _ _ sA5 sB5 h5 => ?_)
+          refine S2.bind (appendLine_s2 h4 n hseg (.inl (by simp only [segA]; omega))) (fun _ _ sA5 sB5 h5 => ?_)
           refine S2.bind (modPc_s2 h5 _ _ (fun ca cb hcc => ?_)) (fun _ _ sA6 sB6 h6 => ?_)
           · exact { hcc with tmpPara := rfl }
           · exact S2.pure ⟨⟨rfl, .inr ⟨n, hn0, rfl, rfl⟩⟩, p, Nat.le_refl _, h6⟩
@@ -271,33 +271,57 @@ theorem setextClose_newPara {src k ls p} {sA sB : St} (h : SR src k ls p sA sB) 
         appendLine para t
         insertAfter (hp + 1) (some (node + 1)) para
         removeChild (hp + 1) (node + 1) : M Unit) sB) := by
-  refine S2.bind (newNode_s2 h _ _ (nodeRel_new src { kind := .paragraph } rfl rfl rfl rfl (by decide)))
+  refine S2.bind (newNode_s2k h _ _ (nodeRel_new src { kind := .paragraph } rfl rfl rfl rfl (by decide)))
     (fun n m sA1 sB1 hq => ?_)
-  obtain ⟨_, hm, hn0, h1⟩ := hq
+  obtain ⟨_, hm, hn0, h1, hk1⟩ := hq
   subst hm
-  refine S2.bind (appendLine_s2 h1 n hst) (fun _ _ sA2 sB2 h2 => ?_)
+  refine S2.bind (appendLine_s2 h1 n hst (.inr (by rw [hk1]; rfl))) (fun _ _ sA2 sB2 h2 => ?_)
   refine S2.bind (insertAfter_s2 h2 hp (some node) n hn0) (fun _ _ sA3 sB3 h3 => ?_)
   exact removeChild_s2 h3 hp node
 
+theorem getNode_eq {id : Nat} {s s' : St} {a : Node} (e : getNode id s = .ok (a, s')) :
+    a = s.nodes.getD id default ∧ s' = s := by
+  unfold getNode at e; cases e; exact ⟨rfl, rfl⟩
+
+theorem modNode_kinds {id : Nat} {f : Node → Node} (hf : ∀ n, (f n).kind = n.kind) {s s' : St} {a : Unit}
+    (e : modNode id f s = .ok (a, s')) : ∀ i, (s'.nodes.getD i default).kind = (s.nodes.getD i default).kind := by
+  unfold modNode at e; cases e
+  intro i
+  simp only [List.getD_eq_getElem?_getD, List.getElem?_set]
+  by_cases hi : id = i
+  · subst hi
+    by_cases hl : id < s.nodes.length
+    · simp [hl, hf]
+    · simp [hl]
+  · simp [hi]
+
+theorem modPc_nodes {f : Ctx → Ctx} {s s' : St} {a : Unit} (e : modPc f s = .ok (a, s')) : s'.nodes = s.nodes := by
+  unfold modPc at e; cases e; rfl
+
+/-- `setextHeadingParser.Close` on a node that is not the Document and not raw (the driver calls it on Heading nodes
+    only: `AInv.pk`; a raw node could receive the paragraph's possibly shorter … lines, see `NodeRel.rawNE`) -/
 theorem setextClose_sim' (src : Bytes) : ∀ k ls p node sA sB, SR src k ls p sA sB → node ≠ 0 →
-    sA.pc.tmpPara ≠ some 0 →
+    sA.pc.tmpPara ≠ some 0 → rawK (sA.nodes.getD node default).kind = false →
     S2 (fun _ _ sA' sB' => SR src k ls p sA' sB') (setextClose node sA) (setextClose (node + 1) sB) := by
-  intro k ls p node sA sB h hnode htmp
+  intro k ls p node sA sB h hnode htmp hnr
   unfold setextClose
   have hn0 : (node == 0) = false := beq_eq_false_iff_ne.mpr hnode
-  refine S2.bind ((getNode_s2 h node).andA (R := fun _ s => s.pc = sA.pc) (fun _ _ e => getNode_pc e))
-    (fun a b sA1 sB1 hq => ?_)
-  obtain ⟨⟨hab, h1⟩, hpc1⟩ := hq
+  refine S2.bind ((getNode_s2 h node).andA (R := fun _ s => s.pc = sA.pc ∧ s.nodes = sA.nodes)
+    (fun _ _ e => ⟨getNode_pc e, by rw [(getNode_eq e).2]⟩)) (fun a b sA1 sB1 hq => ?_)
+  obtain ⟨⟨hab, h1⟩, hpc1, hnd1⟩ := hq
   rw [hn0] at hab
-  refine S2.bind (P := fun x y sA' sB' => SegRel src x y ∧ SR src k ls p sA' sB' ∧ sA'.pc = sA.pc)
+  refine S2.bind (P := fun x y sA' sB' => SegRel src x y ∧ SR src k ls p sA' sB' ∧ sA'.pc = sA.pc ∧ sA'.nodes = sA.nodes)
     (S2.liftE (fun x hx => ?_)) (fun x y sA2 sB2 hq => ?_)
   · obtain ⟨y, hy, hxy⟩ := lineAt_q hab.lines _ x hx
-    exact ⟨y, hy, hxy, h1, hpc1⟩
-  obtain ⟨hxy, h2, hpc2⟩ := hq
-  refine S2.bind ((modNode_s2 h2 node _ _ (fun a b hab => ?_)).andA (R := fun _ s => s.pc = sA2.pc)
-    (fun _ _ e => modNode_pc e)) (fun _ _ sA3 sB3 hq => ?_)
-  · exact { hab with lines := trivial, linesNil := rfl }
-  obtain ⟨h3, hpc3⟩ := hq
+    exact ⟨y, hy, hxy, h1, hpc1, hnd1⟩
+  obtain ⟨hxy, h2, hpc2, hnd2⟩ := hq
+  refine S2.bind ((modNode_s2 h2 node _ _ (fun a b hab => ?_)).andA
+    (R := fun _ s => s.pc = sA2.pc ∧ ∀ i, (s.nodes.getD i default).kind = (sA2.nodes.getD i default).kind)
+    (fun _ _ e => ⟨modNode_pc e, modNode_kinds (f := fun n => { n with lines := [], linesNil := true }) (fun _ => rfl) e⟩))
+    (fun _ _ sA3 sB3 hq => ?_)
+  · exact { hab with lines := trivial, linesNil := rfl, rawNE := fun _ l hl => by cases hl }
+  obtain ⟨h3, hpc3, hk3⟩ := hq
+  have hnr3 : rawK (sA3.nodes.getD node default).kind = false := by rw [hk3, hnd2]; exact hnr
   refine S2.bind (getPc_s2 h3) (fun ca cb sA4 sB4 hq => ?_)
   obtain ⟨hca, hcb, hcc, hA4, hB4⟩ := hq
   subst hA4 hB4
@@ -312,10 +336,14 @@ theorem setextClose_sim' (src : Bytes) : ∀ k ls p node sA sB, SR src k ls p sA
       (fun t1 t2 sA4' sB4' hq => ?_)
     obtain ⟨e1, e2, e3, e4⟩ := hq
     subst e1 e2 e3 e4
-    refine S2.bind (modPc_s2 h3 _ _ (fun ca cb hcc => ?_)) (fun _ _ sA5 sB5 h5 => ?_)
+    refine S2.bind ((modPc_s2 h3 _ _ (fun ca cb hcc => ?_)).andA (R := fun _ s => s.nodes = sA4.nodes)
+      (fun _ _ e => modPc_nodes e)) (fun _ _ sA5 sB5 hq => ?_)
     · exact { hcc with tmpPara := rfl }
-    refine S2.bind (getNode_s2 h5 t) (fun tn tn' sA6 sB6 hq => ?_)
-    obtain ⟨htn, h6⟩ := hq
+    obtain ⟨h5, hnd5⟩ := hq
+    refine S2.bind ((getNode_s2 h5 t).andA (R := fun _ s => s = sA5) (fun _ _ e => (getNode_eq e).2))
+      (fun tn tn' sA6 sB6 hq => ?_)
+    obtain ⟨⟨htn, h6⟩, hs6⟩ := hq
+    have hnr6 : rawK (sA6.nodes.getD node default).kind = false := by rw [hs6, hnd5]; exact hnr3
     rw [ht0] at htn
     rw [SegsRel.length htn.lines]
     by_cases hc : (tn.lines.length == 0) = true
@@ -350,8 +378,9 @@ theorem setextClose_sim' (src : Bytes) : ∀ k ls p node sA sB, SR src k ls p sA
           exact setextClose_newPara h10 hp node hxy'
         | some nx =>
           dsimp only [Option.map_some]
-          refine S2.bind (getNode_s2 h10 nx) (fun nn nn' sA11 sB11 hq => ?_)
-          obtain ⟨hnn, h11⟩ := hq
+          refine S2.bind ((getNode_s2 h10 nx).andA (R := fun a s => a = sA10.nodes.getD nx default ∧ s = sA10)
+            (fun _ _ e => getNode_eq e)) (fun nn nn' sA11 sB11 hq => ?_)
+          obtain ⟨⟨hnn, h11⟩, hnn_eq, hs11⟩ := hq
           refine S2.pureBind ?_
           have hkind : (nn'.kind == Kind.paragraph) = (nn.kind == Kind.paragraph) := by
             have hk := hnn.kind
@@ -368,18 +397,23 @@ theorem setextClose_sim' (src : Bytes) : ∀ k ls p node sA sB, SR src k ls p sA
           · rw [if_pos hpara, if_pos hpara]
             exact setextClose_newPara h11 hp node hxy'
           · rw [if_neg hpara, if_neg hpara]
-            refine S2.bind (getNode_s2 h11 nx) (fun n2 n2' sA12 sB12 hq => ?_)
-            obtain ⟨hn2, h12⟩ := hq
+            refine S2.bind ((getNode_s2 h11 nx).andA (R := fun _ s => s = sA11) (fun _ _ e => (getNode_eq e).2))
+              (fun n2 n2' sA12 sB12 hq => ?_)
+            obtain ⟨⟨hn2, h12⟩, hs12⟩ := hq
+            have hnx : rawK (sA12.nodes.getD nx default).kind = false := by
+              rw [hs12, hs11, ← hnn_eq]
+              have : nn.kind = Kind.paragraph := by simpa using hpara
+              rw [this]; rfl
             rw [hn2.linesNil]
             by_cases hnil : n2.linesNil = true
             · rw [if_pos hnil]; exact S2.err
             · rw [if_neg hnil, if_neg hnil]
-              refine S2.bind (modNode_s2 h12 nx _ _ (fun a b hab => ?_)) (fun _ _ sA13 sB13 h13 => ?_)
-              · exact { hab with lines := ⟨hxy', hab.lines⟩ }
+              refine S2.bind (modNode_s2' h12 nx _ _ (fun hab => ?_)) (fun _ _ sA13 sB13 h13 => ?_)
+              · exact { hab with lines := ⟨hxy', hab.lines⟩, rawNE := fun hr => by rw [hnx] at hr; cases hr }
               exact removeChild_s2 h13 hp node
     · rw [if_neg hc, if_neg hc]
-      refine S2.bind (modNode_s2 h6 node _ _ (fun a b hab => ?_)) (fun _ _ sA7 sB7 h7 => ?_)
-      · exact { hab with lines := htn.lines, linesNil := htn.linesNil }
+      refine S2.bind (modNode_s2' h6 node _ _ (fun hab => ?_)) (fun _ _ sA7 sB7 h7 => ?_)
+      · exact { hab with lines := htn.lines, linesNil := htn.linesNil, rawNE := fun hr => by rw [hnr6] at hr; cases hr }
       have hp := htn.parent
       simp only [Bool.false_eq_true, if_false] at hp
       rw [hp]
